@@ -7,7 +7,7 @@ ERR = ERRNAMES
 
 class Ev:
     """one S/U/R/C/X/D state event from the harness"""
-    __slots__ = ('kind', 'ret', 'err', 'exc', 'nop', 'done', 'vf', 'pc', 'cs', 'seq', 'opc', 'cspos', 'weight', 'p2sh', 'tcei', 'succ', 'sv', 'leaf', 'stack', 'alt', 'raw')
+    __slots__ = ('kind', 'ret', 'err', 'exc', 'nop', 'done', 'vf', 'pc', 'cs', 'seq', 'opc', 'cspos', 'weight', 'p2sh', 'tcei', 'succ', 'sv', 'leaf', 'stack', 'alt', 'opos', 'raw')
 
     def __init__(self, line):
         t = line.split(' ')
@@ -32,10 +32,11 @@ class Ev:
         self.leaf = t[18]
         self.stack = parse_items(t[19])
         self.alt = parse_items(t[20])
+        self.opos = int(t[21]) if len(t) > 21 else 0     # BIP342 opcode position (what a later OP_CODESEPARATOR records)
 
     def state(self):
         """the complete observable state tuple (used by relational monitors)"""
-        return (tuple(self.stack), tuple(self.alt), self.vf, self.nop, self.pc, self.cs, self.seq, self.done, self.cspos, self.weight, self.p2sh, self.tcei, self.succ)
+        return (tuple(self.stack), tuple(self.alt), self.vf, self.nop, self.pc, self.cs, self.seq, self.done, self.cspos, self.weight, self.p2sh, self.tcei, self.succ, self.opos)
 
 
 STATE_KINDS = ('S', 'U', 'R', 'C', 'X', 'D')
